@@ -1,42 +1,32 @@
 //go:build verif
 
-package keysutil
+package transit
 
-// C17 (policy level, concurrent requests): the version limits of a key must
-// hold for every request that starts after the request which set them was
-// acknowledged, whatever other requests were in flight on the same key.
+// C17 (API level, concurrent requests): the same monitor as the policy-level
+// one (sdk/helper/keysutil, c17_conc_test.go) driven through the transit
+// backend's request handlers: keys/<k>/config, keys/<k>/rotate, keys/<k>/trim,
+// DELETE keys/<k>, encrypt, decrypt, sign, verify, hmac, keys/<k> read, backup.
+// Several clients run short programs against ONE key through
+// backend.HandleRequest after a fresh start / invalidate() / eviction (and with
+// the key cached). The logical.Storage handed to the requests is wrapped: every
+// storage operation of a client goroutine (and the start of every client) is a
+// scheduling point at which the goroutine is parked until a controller
+// releases it; a released goroutine that waits for a sync mutex (goroutine
+// dump) is "blocked on a lock" and another client is released. The wrapper is
+// not transactional, so the handlers work without storage transactions; the
+// free-running variant additionally runs on the transactional in-memory
+// storage itself.
 //
-// Several clients run short programs (config raising min_decryption_version /
-// min_encryption_version, rotate, trim, allow-deletion + delete, encrypt,
-// decrypt of an old-version ciphertext, sign / verify, read, backup) against
-// ONE key through a cache-enabled LockManager, using the lock manager the way
-// its documentation prescribes (GetPolicy / GetPolicyExclusive -> use ->
-// Unlock). The cache and the logical.Storage handed to the lock manager are
-// wrapped: every cache Load/Store/Delete and every storage Get/Put/Delete/List
-// made by a client goroutine is a scheduling point at which the goroutine is
-// parked until a controller releases it, so exactly one client runs at a time
-// and the interleaving is chosen by a policy (depth-first enumeration under a
-// preemption bound, then seeded PCT / random schedules). A released goroutine
-// that does not reach its next scheduling point is looked up in a goroutine
-// dump: when it waits for a sync mutex it is "blocked on a lock" and another
-// client is released; no timing enters that decision.
-//
-// The oracle is a sequential reference of the key ring, state = {latest,
-// min_decryption_version, min_encryption_version, min_available_version,
-// deletion_allowed, deleted}:
-//   * real-time rule: the effect of every ACKNOWLEDGED rotate / config / trim /
-//     delete is visible to every operation that started after the
-//     acknowledgement (narrow classes below),
-//   * the whole per-key history is linearizable w.r.t. the reference
-//     (porcupine),
-//   * at quiescence the policy the lock manager serves equals what storage
-//     holds (fields and key material of every version) and the stored archive
-//     agrees with the stored policy.
+// Oracle: sequential reference {latest, min_decryption_version,
+// min_encryption_version, min_available_version, deletion_allowed, deleted}:
+// every ACKNOWLEDGED rotate / config / trim / delete is visible to every
+// request that started after the acknowledgement, the per-key history is
+// linearizable (porcupine), and at quiescence the policy the backend serves
+// equals what storage holds.
 
 import (
 	"bytes"
 	"context"
-	crand "crypto/rand"
 	"crypto/sha256"
 	"encoding/base64"
 	"encoding/hex"
@@ -53,6 +43,7 @@ import (
 
 	"github.com/anishathalye/porcupine"
 
+	"github.com/openbao/openbao/sdk/v2/helper/keysutil"
 	kit "github.com/openbao/openbao/sdk/v2/helper/verifkit"
 	"github.com/openbao/openbao/sdk/v2/logical"
 )
@@ -385,7 +376,7 @@ func (s *c17Sched) free(reqs []kit.Req) {
 	wg.Wait()
 }
 
-// ------------------------------------------------ gated storage and cache
+// ------------------------------------------------------- gated storage
 
 type c17GStore struct {
 	inner logical.Storage
@@ -415,64 +406,6 @@ func (g *c17GStore) List(ctx context.Context, prefix string) ([]string, error) {
 func (g *c17GStore) ListPage(ctx context.Context, prefix, after string, limit int) ([]string, error) {
 	g.s.point("listpage", prefix)
 	return g.inner.ListPage(ctx, prefix, after, limit)
-}
-
-// c17GCache makes every cache access of a client a scheduling point and
-// records which clients missed the cache while another client that had missed
-// it was still on its way to storage.
-type c17GCache struct {
-	inner Cache
-	s     *c17Sched
-
-	mu             sync.Mutex
-	inMiss         map[string]bool
-	misses, hits   int
-	concurrentMiss bool
-}
-
-func (c *c17GCache) Load(key any) (any, bool) {
-	tag := c.s.point("cache-load", fmt.Sprint(key))
-	v, ok := c.inner.Load(key)
-	if tag != "" {
-		c.mu.Lock()
-		if ok {
-			c.hits++
-			delete(c.inMiss, tag)
-		} else {
-			c.misses++
-			for t := range c.inMiss {
-				if t != tag {
-					c.concurrentMiss = true
-				}
-			}
-			c.inMiss[tag] = true
-		}
-		c.mu.Unlock()
-	}
-	return v, ok
-}
-
-func (c *c17GCache) Store(key, value any) {
-	tag := c.s.point("cache-store", fmt.Sprint(key))
-	c.inner.Store(key, value)
-	if tag != "" {
-		c.mu.Lock()
-		delete(c.inMiss, tag)
-		c.mu.Unlock()
-	}
-}
-
-func (c *c17GCache) Delete(key any) {
-	c.s.point("cache-delete", fmt.Sprint(key))
-	c.inner.Delete(key)
-}
-
-func (c *c17GCache) Size() int { return c.inner.Size() }
-
-func (c *c17GCache) endOp(tag string) {
-	c.mu.Lock()
-	delete(c.inMiss, tag)
-	c.mu.Unlock()
 }
 
 // ------------------------------------------------------ reference model
@@ -607,9 +540,9 @@ func c17CStep(st c17CState, in c17CIn, out c17COut) (bool, c17CState) {
 			st.Deleted = true
 		}
 		return true, st
-	case "encrypt", "sign":
+	case "encrypt", "sign", "hmac":
 		return produce()
-	case "decrypt", "verify":
+	case "decrypt", "verify", "hmacverify":
 		return consume()
 	case "read":
 		return out.OK && out.F == [4]int{st.Latest, st.MinDec, st.MinEnc, st.MinAvail}, st
@@ -643,6 +576,7 @@ type c17CScen struct {
 	Signing bool // ed25519 (sign / verify) instead of aes256-gcm96 (encrypt / decrypt)
 	Init    c17CState
 	Cache   string // fresh | invalidated | warm | lru-fresh | lru-evicted | lru-warm
+	Tx      bool   // free-running only: requests get the transactional in-memory storage itself
 	Clients [][]c17CIn
 }
 
@@ -693,9 +627,9 @@ func c17CScenarios(seed int64) []*c17CScen {
 		{"rotate encrypt=0 read", base},
 		{"trim=2 read decrypt=1", trimmed},
 		{"allow_delete delete decrypt=3", base},
-		{"min_dec=3 decrypt=2 encrypt=0", base},
+		{"min_dec=3 hmacverify=2 hmac=0", base},
 	}
-	seconds := []string{"decrypt=1", "encrypt=0", "rotate", "min_enc=2", "read", "backup", "encrypt=1 decrypt=2", "min_dec=2 decrypt=1"}
+	seconds := []string{"decrypt=1", "encrypt=0", "rotate", "min_enc=2", "read", "backup", "hmac=0 hmacverify=1", "min_dec=2 decrypt=1"}
 	sprims := []string{"min_dec=2 verify=1 sign=0", "rotate sign=0 verify=3", "min_enc=3 sign=1 read"}
 	sseconds := []string{"verify=1", "sign=0", "rotate", "sign=1 verify=2"}
 	var out []*c17CScen
@@ -718,7 +652,7 @@ func c17CScenarios(seed int64) []*c17CScen {
 		}
 	}
 	// 2. the other ways in which a key is (not) cached; the pairing rotates with the seed
-	rng := kit.NewRand(seed, 1_717_400)
+	rng := kit.NewRand(seed, 1_717_401)
 	for ci, ck := range c17CCacheKinds[1:] {
 		for pi, p := range prims {
 			s := seconds[(pi+ci+int(uint64(seed)%8))%len(seconds)]
@@ -753,9 +687,9 @@ type c17CRec struct {
 	In        c17CIn
 	Out       c17COut
 	Call, Ret int64
-	Produced  string // ciphertext / signature returned
+	Produced  string // ciphertext / signature / HMAC returned
 	Plain     []byte
-	KeyHash   string // rotate: fingerprint of the key material of the new version
+	KeyHash   string
 }
 
 func (r *c17CRec) String() string {
@@ -766,12 +700,12 @@ type c17CRun struct {
 	sc    *c17CScen
 	ctx   context.Context
 	raw   *logical.InmemStorage
-	st    logical.Storage
-	lm    *LockManager
+	st    logical.Storage // what the clients' requests carry
+	b     *backend
 	sched *c17Sched
-	cache *c17GCache
 	plain []byte
 	cts   map[int]string // one ciphertext / signature per initial version
+	macs  map[int]string // one HMAC per initial version
 	stamp atomic.Int64
 
 	mu   sync.Mutex
@@ -780,298 +714,307 @@ type c17CRun struct {
 
 const c17CKey = "k"
 
-func c17KeyHash(ke KeyEntry) string {
+func c17KeyHash(ke keysutil.KeyEntry) string {
 	h := sha256.Sum256(ke.Key)
 	return hex.EncodeToString(h[:6])
 }
 
-func c17CSigOpts() *SigningOptions {
-	return &SigningOptions{HashAlgorithm: HashTypeSHA2256, Marshaling: MarshalingTypeASN1}
-}
-
-// c17CNewRun builds the key ring of the scenario on a fresh storage with a
-// throw-away lock manager and then the lock manager under test.
-func c17CNewRun(ctx context.Context, sc *c17CScen) (*c17CRun, error) {
-	u := &c17CRun{sc: sc, ctx: ctx, raw: &logical.InmemStorage{}, sched: c17NewSched(), plain: []byte("c17 concurrent plaintext"), cts: map[int]string{}}
-	u.st = &c17GStore{inner: u.raw, s: u.sched}
-	kt := KeyType(KeyType_AES256_GCM96)
-	if sc.Signing {
-		kt = KeyType_ED25519
-	}
-	setup, _ := NewLockManager(true, 0)
-	p, _, err := setup.GetPolicyExclusive(ctx, PolicyRequest{Upsert: true, Storage: u.raw, Name: c17CKey, KeyType: kt, Exportable: true, AllowPlaintextBackup: true}, crand.Reader)
-	if err != nil || p == nil {
-		return nil, fmt.Errorf("create: %v", err)
-	}
-	err = func() error {
-		defer p.Unlock()
-		for v := 1; v <= sc.Init.Latest; v++ {
-			if v > 1 {
-				if err := p.Rotate(ctx, u.raw, crand.Reader); err != nil {
-					return err
-				}
-			}
-			if sc.Signing {
-				res, err := p.SignWithOptions(v, nil, u.plain, c17CSigOpts())
-				if err != nil {
-					return err
-				}
-				u.cts[v] = res.Signature
-			} else {
-				ct, err := p.Encrypt(v, nil, nil, c17b64(u.plain))
-				if err != nil {
-					return err
-				}
-				u.cts[v] = ct
-			}
-		}
-		p.MinDecryptionVersion = sc.Init.MinDec
-		p.MinEncryptionVersion = sc.Init.MinEnc
-		p.DeletionAllowed = sc.Init.DelAllowed
-		return p.Persist(ctx, u.raw)
-	}()
-	if err != nil {
-		return nil, fmt.Errorf("setup: %v", err)
-	}
-	size := 0
-	if strings.HasPrefix(sc.Cache, "lru") {
-		size = 2
-		if sc.Cache == "lru-warm" {
-			size = 8
-		}
-	}
-	u.lm, err = NewLockManager(true, size)
+func c17CBackend(ctx context.Context, raw *logical.InmemStorage) (*backend, error) {
+	sys := logical.TestSystemView()
+	conf := &logical.BackendConfig{StorageView: raw, System: sys}
+	b, err := Backend(ctx, conf)
 	if err != nil {
 		return nil, err
 	}
-	touch := func(name string, upsert bool) error {
-		p, _, err := u.lm.GetPolicy(ctx, PolicyRequest{Upsert: upsert, Storage: u.raw, Name: name, KeyType: KeyType_AES256_GCM96}, crand.Reader)
-		if err != nil || p == nil {
-			return fmt.Errorf("touch %s: %v", name, err)
+	if err := b.Setup(ctx, conf); err != nil {
+		return nil, err
+	}
+	return b, nil
+}
+
+type c17CResp struct {
+	Data    map[string]any
+	Refusal string // error response of the handler
+	Err     error  // error without an error response
+	Nil     bool   // neither response nor error
+}
+
+func (u *c17CRun) req(st logical.Storage, op logical.Operation, path string, data map[string]any) (out c17CResp) {
+	defer func() {
+		if pv := recover(); pv != nil {
+			out = c17CResp{Err: fmt.Errorf("PANIC: %v", pv)}
 		}
-		p.Unlock()
-		return nil
+	}()
+	resp, err := u.b.HandleRequest(u.ctx, &logical.Request{Operation: op, Path: path, Data: data, Storage: st})
+	if resp != nil {
+		if resp.IsError() {
+			out.Refusal = resp.Error().Error()
+		}
+		out.Data = resp.Data
+	}
+	if err != nil && out.Refusal == "" {
+		out.Err = err
+	}
+	out.Nil = resp == nil && err == nil
+	return out
+}
+
+// c17CNewRun builds the key ring of the scenario through the API with a
+// throw-away backend object and then the backend under test over the same
+// storage.
+func c17CNewRun(ctx context.Context, r *kit.Result, id string, sc *c17CScen) (*c17CRun, error) {
+	u := &c17CRun{sc: sc, ctx: ctx, raw: &logical.InmemStorage{}, sched: c17NewSched(), plain: []byte("c17 concurrent plaintext"), cts: map[int]string{}, macs: map[int]string{}}
+	u.st = &c17GStore{inner: u.raw, s: u.sched}
+	if sc.Tx {
+		u.st = u.raw
+	}
+	var err error
+	if u.b, err = c17CBackend(ctx, u.raw); err != nil {
+		return nil, err
+	}
+	must := func(op logical.Operation, path string, data map[string]any) (map[string]any, error) {
+		resp := u.req(u.raw, op, path, data)
+		if resp.Err != nil || resp.Refusal != "" {
+			return nil, fmt.Errorf("setup %s %s: %v %s", op, path, resp.Err, resp.Refusal)
+		}
+		return resp.Data, nil
+	}
+	kt := "aes256-gcm96"
+	if sc.Signing {
+		kt = "ed25519"
+	}
+	if _, err := must(logical.UpdateOperation, "keys/"+c17CKey, map[string]any{"type": kt, "exportable": true, "allow_plaintext_backup": true}); err != nil {
+		return nil, err
+	}
+	for v := 1; v <= sc.Init.Latest; v++ {
+		if v > 1 {
+			if _, err := must(logical.UpdateOperation, "keys/"+c17CKey+"/rotate", map[string]any{}); err != nil {
+				return nil, err
+			}
+		}
+		var d map[string]any
+		if sc.Signing {
+			if d, err = must(logical.UpdateOperation, "sign/"+c17CKey, map[string]any{"input": c17b64(u.plain), "key_version": v}); err == nil {
+				u.cts[v] = c17Str(d["signature"])
+			}
+		} else {
+			if d, err = must(logical.UpdateOperation, "encrypt/"+c17CKey, map[string]any{"plaintext": c17b64(u.plain), "key_version": v}); err == nil {
+				u.cts[v] = c17Str(d["ciphertext"])
+			}
+		}
+		if err != nil {
+			return nil, err
+		}
+		if d, err = must(logical.UpdateOperation, "hmac/"+c17CKey, map[string]any{"input": c17b64(u.plain), "key_version": v}); err != nil {
+			return nil, err
+		}
+		u.macs[v] = c17Str(d["hmac"])
+		if lv, _, ok := c17Parse(u.cts[v], base64.StdEncoding); !ok || lv != v {
+			return nil, fmt.Errorf("setup: output for version %d is %s", v, c17trunc(u.cts[v]))
+		}
+	}
+	cfg := map[string]any{}
+	if sc.Init.MinDec > 1 {
+		cfg["min_decryption_version"] = sc.Init.MinDec
+	}
+	if sc.Init.MinEnc > 0 {
+		cfg["min_encryption_version"] = sc.Init.MinEnc
+	}
+	if sc.Init.DelAllowed {
+		cfg["deletion_allowed"] = true
+	}
+	if len(cfg) > 0 {
+		if _, err := must(logical.UpdateOperation, "keys/"+c17CKey+"/config", cfg); err != nil {
+			return nil, err
+		}
+	}
+	if strings.HasPrefix(sc.Cache, "lru") {
+		if _, err := must(logical.UpdateOperation, "cache-config", map[string]any{"size": 10}); err != nil {
+			return nil, err
+		}
+	}
+	// the backend under test: a new object over the same storage (cold cache)
+	if u.b, err = c17CBackend(ctx, u.raw); err != nil {
+		return nil, err
+	}
+	if want := strings.HasPrefix(sc.Cache, "lru"); (u.b.lm.GetCacheSize() > 0) != want {
+		return nil, fmt.Errorf("cache kind %s: backend cache size is %d", sc.Cache, u.b.lm.GetCacheSize())
+	}
+	touch := func(name string) error {
+		_, err := must(logical.ReadOperation, "keys/"+name, nil)
+		return err
 	}
 	switch sc.Cache {
 	case "warm", "lru-warm":
-		err = touch(c17CKey, false)
+		err = touch(c17CKey)
 	case "invalidated":
-		if err = touch(c17CKey, false); err == nil {
-			u.lm.InvalidatePolicy(c17CKey)
+		if err = touch(c17CKey); err == nil {
+			u.b.invalidate(ctx, "policy/"+c17CKey)
 		}
 	case "lru-evicted":
-		if err = touch(c17CKey, false); err == nil {
-			for i := 0; i < 4 && err == nil; i++ {
-				err = touch(fmt.Sprintf("other%d", i), true)
-			}
+		err = touch(c17CKey)
+		for i := 0; i < 14 && err == nil; i++ {
+			name := fmt.Sprintf("other%d", i)
+			// created, never used again: the entries stay in the 2Q cache's "recent"
+			// list, whose overflow evicts its oldest member (the key under test)
+			_, err = must(logical.UpdateOperation, "keys/"+name, map[string]any{"type": "aes256-gcm96"})
 		}
 	}
 	if err != nil {
 		return nil, err
 	}
-	_, cached := u.lm.cache.Load(c17CKey)
-	if want := sc.Cache == "warm" || sc.Cache == "lru-warm"; cached != want {
-		return nil, fmt.Errorf("cache kind %s: key cached=%v before the clients start", sc.Cache, cached)
-	}
-	u.cache = &c17GCache{inner: u.lm.cache, s: u.sched, inMiss: map[string]bool{}}
-	u.lm.cache = u.cache
 	return u, nil
 }
 
-// with obtains the policy the way the request handlers do.
-func (u *c17CRun) with(exclusive bool, f func(p *Policy) c17COut) c17COut {
-	p, _, err := u.lm.GetPolicyWithLockType(u.ctx, PolicyRequest{Storage: u.st, Name: c17CKey}, crand.Reader, exclusive)
-	if err != nil {
-		return c17COut{Err: "get policy: " + err.Error()}
+// classify maps a handler answer that is not a success.
+func c17CClassify(resp c17CResp, soft bool) (c17COut, bool) {
+	gone := func(s string) bool {
+		return strings.Contains(s, "not found") || strings.Contains(s, "could be found") || strings.Contains(s, "invalid key name") || strings.Contains(s, "key has been deleted")
 	}
-	if p == nil {
-		return c17COut{NotFound: true}
-	}
-	defer p.Unlock()
-	return f(p)
-}
-
-// persist stores a field change and rolls it back when storing is refused.
-func (u *c17CRun) persist(p *Policy, undo func()) c17COut {
-	if err := p.Persist(u.ctx, u.st); err != nil {
-		undo()
-		if strings.Contains(err.Error(), "key has been deleted") {
-			return c17COut{NotFound: true}
+	switch {
+	case resp.Err != nil:
+		if gone(resp.Err.Error()) {
+			return c17COut{NotFound: true}, true
 		}
-		return c17COut{Err: "persist: " + err.Error()}
+		if soft && !strings.HasPrefix(resp.Err.Error(), "PANIC") {
+			// encrypt / decrypt / sign / verify / hmac: an error without an error
+			// response still means "nothing was produced / accepted"; whether that
+			// refusal is legal is for the reference to say
+			return c17COut{Refused: true, Err: resp.Err.Error()}, true
+		}
+		return c17COut{Err: resp.Err.Error()}, true
+	case resp.Refusal != "":
+		if gone(resp.Refusal) {
+			return c17COut{NotFound: true}, true
+		}
+		return c17COut{Refused: true, Err: resp.Refusal}, true
 	}
-	return c17COut{OK: true}
-}
-
-func c17CRefuse(format string, a ...any) c17COut {
-	return c17COut{Refused: true, Err: fmt.Sprintf(format, a...)}
+	return c17COut{}, false
 }
 
 // exec performs one client operation; rec receives what it produced.
 func (u *c17CRun) exec(in c17CIn, rec *c17CRec) (out c17COut) {
-	defer func() {
-		if pv := recover(); pv != nil {
-			out = c17COut{Err: fmt.Sprintf("PANIC: %v", pv)}
-		}
-	}()
 	v := in.Arg
+	write := func(path string, data map[string]any) (c17CResp, c17COut, bool) {
+		resp := u.req(u.st, logical.UpdateOperation, path, data)
+		o, bad := c17CClassify(resp, strings.HasPrefix(path, "encrypt/") || strings.HasPrefix(path, "sign/") || strings.HasPrefix(path, "hmac/"))
+		return resp, o, bad
+	}
+	plainOK := func(path string, data map[string]any) c17COut {
+		if _, o, bad := write(path, data); bad {
+			return o
+		}
+		return c17COut{OK: true}
+	}
+	produce := func(path, inField, outField string) c17COut {
+		resp, o, bad := write(path, map[string]any{inField: c17b64(rec.Plain), "key_version": v})
+		if bad {
+			return o
+		}
+		s := c17Str(resp.Data[outField])
+		lv, _, ok := c17Parse(s, base64.StdEncoding)
+		if !ok {
+			return c17COut{Err: "unparsable " + outField + " " + c17trunc(s)}
+		}
+		rec.Produced = s
+		return c17COut{OK: true, Ver: lv}
+	}
 	switch in.Kind {
 	case "rotate":
-		return u.with(true, func(p *Policy) c17COut {
-			if err := p.Rotate(u.ctx, u.st, crand.Reader); err != nil {
-				if strings.Contains(err.Error(), "key has been deleted") {
-					return c17COut{NotFound: true}
-				}
-				return c17COut{Err: "rotate: " + err.Error()}
-			}
-			rec.KeyHash = c17KeyHash(p.Keys[strconv.Itoa(p.LatestVersion)])
-			return c17COut{OK: true, Ver: p.LatestVersion}
-		})
+		resp, o, bad := write("keys/"+c17CKey+"/rotate", map[string]any{})
+		if bad {
+			return o
+		}
+		return c17COut{OK: true, Ver: c17Int(resp.Data["latest_version"])}
 	case "min_dec":
-		return u.with(true, func(p *Policy) c17COut {
-			switch {
-			case v < 1 || v > p.LatestVersion:
-				return c17CRefuse("min_decryption_version %d outside 1..latest %d", v, p.LatestVersion)
-			case p.MinEncryptionVersion > 0 && p.MinEncryptionVersion < v:
-				return c17CRefuse("min_decryption_version %d above min_encryption_version %d", v, p.MinEncryptionVersion)
-			case p.MinAvailableVersion > v:
-				return c17CRefuse("min_decryption_version %d below min_available_version %d", v, p.MinAvailableVersion)
-			}
-			old := p.MinDecryptionVersion
-			p.MinDecryptionVersion = v
-			return u.persist(p, func() { p.MinDecryptionVersion = old })
-		})
+		return plainOK("keys/"+c17CKey+"/config", map[string]any{"min_decryption_version": v})
 	case "min_enc":
-		return u.with(true, func(p *Policy) c17COut {
-			switch {
-			case v < 1 || v > p.LatestVersion:
-				return c17CRefuse("min_encryption_version %d outside 1..latest %d", v, p.LatestVersion)
-			case v < p.MinDecryptionVersion:
-				return c17CRefuse("min_encryption_version %d below min_decryption_version %d", v, p.MinDecryptionVersion)
-			case p.MinAvailableVersion > v:
-				return c17CRefuse("min_encryption_version %d below min_available_version %d", v, p.MinAvailableVersion)
-			}
-			old := p.MinEncryptionVersion
-			p.MinEncryptionVersion = v
-			return u.persist(p, func() { p.MinEncryptionVersion = old })
-		})
-	case "trim":
-		return u.with(true, func(p *Policy) c17COut {
-			switch {
-			case v < 1 || v < p.MinAvailableVersion:
-				return c17CRefuse("min_available_version %d below the current %d", v, p.MinAvailableVersion)
-			case p.MinEncryptionVersion == 0:
-				return c17CRefuse("min_encryption_version not set")
-			case v > p.MinEncryptionVersion || v > p.MinDecryptionVersion:
-				return c17CRefuse("min_available_version %d above min_encryption_version %d / min_decryption_version %d", v, p.MinEncryptionVersion, p.MinDecryptionVersion)
-			}
-			old := p.MinAvailableVersion
-			p.MinAvailableVersion = v
-			return u.persist(p, func() { p.MinAvailableVersion = old })
-		})
+		return plainOK("keys/"+c17CKey+"/config", map[string]any{"min_encryption_version": v})
 	case "allow_delete":
-		return u.with(true, func(p *Policy) c17COut {
-			old := p.DeletionAllowed
-			p.DeletionAllowed = true
-			return u.persist(p, func() { p.DeletionAllowed = old })
-		})
+		return plainOK("keys/"+c17CKey+"/config", map[string]any{"deletion_allowed": true})
+	case "trim":
+		return plainOK("keys/"+c17CKey+"/trim", map[string]any{"min_available_version": v})
 	case "delete":
-		err := u.lm.DeletePolicy(u.ctx, u.st, c17CKey)
-		switch {
-		case err == nil:
-			return c17COut{OK: true}
-		case strings.Contains(err.Error(), "not found"):
-			return c17COut{NotFound: true}
-		case strings.Contains(err.Error(), "deletion is not allowed"):
-			return c17CRefuse("%v", err)
+		resp := u.req(u.st, logical.DeleteOperation, "keys/"+c17CKey, nil)
+		if o, bad := c17CClassify(resp, false); bad {
+			return o
 		}
-		return c17COut{Err: "delete: " + err.Error()}
+		return c17COut{OK: true}
 	case "backup":
-		_, err := u.lm.BackupPolicy(u.ctx, u.st, c17CKey)
-		switch {
-		case err == nil:
-			return c17COut{OK: true}
-		case strings.Contains(err.Error(), "not found") || strings.Contains(err.Error(), "key has been deleted"):
+		resp := u.req(u.st, logical.ReadOperation, "backup/"+c17CKey, nil)
+		if o, bad := c17CClassify(resp, false); bad {
+			return o
+		}
+		if c17Str(resp.Data["backup"]) == "" {
+			return c17COut{Err: "empty backup"}
+		}
+		return c17COut{OK: true}
+	case "encrypt":
+		return produce("encrypt/"+c17CKey, "plaintext", "ciphertext")
+	case "sign":
+		return produce("sign/"+c17CKey, "input", "signature")
+	case "hmac":
+		return produce("hmac/"+c17CKey, "input", "hmac")
+	case "decrypt", "verify", "hmacverify":
+		return u.consume(u.st, in.Kind, rec.Produced, rec.Plain)
+	case "read":
+		resp := u.req(u.st, logical.ReadOperation, "keys/"+c17CKey, nil)
+		if resp.Nil {
 			return c17COut{NotFound: true}
 		}
-		return c17COut{Err: "backup: " + err.Error()}
-	case "encrypt":
-		return u.with(false, func(p *Policy) c17COut {
-			ct, err := p.Encrypt(v, nil, nil, c17b64(rec.Plain))
-			if err != nil {
-				return c17CRefuse("%v", err)
-			}
-			lv, _, ok := c17Parse(ct, base64.StdEncoding)
-			if !ok {
-				return c17COut{Err: "unparsable ciphertext " + c17trunc(ct)}
-			}
-			rec.Produced = ct
-			return c17COut{OK: true, Ver: lv}
-		})
-	case "sign":
-		return u.with(false, func(p *Policy) c17COut {
-			res, err := p.SignWithOptions(v, nil, rec.Plain, c17CSigOpts())
-			if err != nil {
-				return c17CRefuse("%v", err)
-			}
-			lv, _, ok := c17Parse(res.Signature, base64.StdEncoding)
-			if !ok {
-				return c17COut{Err: "unparsable signature " + c17trunc(res.Signature)}
-			}
-			rec.Produced = res.Signature
-			return c17COut{OK: true, Ver: lv}
-		})
-	case "decrypt":
-		return u.decrypt(rec.Produced, rec.Plain)
-	case "verify":
-		return u.verify(rec.Produced, rec.Plain)
-	case "read":
-		return u.with(false, func(p *Policy) c17COut {
-			return c17COut{OK: true, F: [4]int{p.LatestVersion, p.MinDecryptionVersion, p.MinEncryptionVersion, p.MinAvailableVersion}}
-		})
+		if o, bad := c17CClassify(resp, false); bad {
+			return o
+		}
+		d := resp.Data
+		return c17COut{OK: true, F: [4]int{c17Int(d["latest_version"]), c17Int(d["min_decryption_version"]), c17Int(d["min_encryption_version"]), c17Int(d["min_available_version"])}}
 	}
 	return c17COut{Err: "unknown operation " + in.Kind}
 }
 
-func (u *c17CRun) decrypt(ct string, want []byte) c17COut {
-	return u.with(false, func(p *Policy) c17COut {
-		got, err := c17Decrypt(p, nil, nil, ct)
-		if err != nil {
-			return c17CRefuse("%v", err)
+// consume presents a ciphertext / signature / HMAC.
+func (u *c17CRun) consume(st logical.Storage, kind, s string, plain []byte) c17COut {
+	switch kind {
+	case "decrypt":
+		resp := u.req(st, logical.UpdateOperation, "decrypt/"+c17CKey, map[string]any{"ciphertext": s})
+		if o, bad := c17CClassify(resp, true); bad {
+			return o
 		}
-		if !bytes.Equal(got, want) {
-			return c17COut{Err: fmt.Sprintf("WRONG PLAINTEXT %q", got)}
-		}
-		return c17COut{OK: true}
-	})
-}
-
-func (u *c17CRun) verify(sig string, msg []byte) c17COut {
-	return u.with(false, func(p *Policy) c17COut {
-		ok, err := p.VerifySignatureWithOptions(nil, msg, sig, c17CSigOpts())
-		if err != nil {
-			return c17CRefuse("%v", err)
-		}
-		if !ok {
-			return c17CRefuse("signature invalid")
+		got, err := base64.StdEncoding.DecodeString(c17Str(resp.Data["plaintext"]))
+		if err != nil || !bytes.Equal(got, plain) {
+			return c17COut{Err: fmt.Sprintf("WRONG PLAINTEXT %q", c17Str(resp.Data["plaintext"]))}
 		}
 		return c17COut{OK: true}
-	})
+	case "verify", "hmacverify":
+		field := "signature"
+		if kind == "hmacverify" {
+			field = "hmac"
+		}
+		resp := u.req(st, logical.UpdateOperation, "verify/"+c17CKey, map[string]any{"input": c17b64(plain), field: s})
+		if o, bad := c17CClassify(resp, true); bad {
+			return o
+		}
+		if valid, _ := resp.Data["valid"].(bool); !valid {
+			return c17COut{Refused: true, Err: "valid=false"}
+		}
+		return c17COut{OK: true}
+	}
+	return c17COut{Err: "unknown operation " + kind}
 }
 
 // do runs one operation of a client and appends it to the history.
 func (u *c17CRun) do(client int, tag string, idx int, in c17CIn) *c17CRec {
 	rec := &c17CRec{Client: client, Tag: tag, In: in}
 	switch in.Kind {
-	case "encrypt", "sign":
+	case "encrypt", "sign", "hmac":
 		rec.Plain = []byte(fmt.Sprintf("plaintext of %s#%d", tag, idx))
 	case "decrypt", "verify":
 		rec.Produced, rec.Plain = u.cts[in.Arg], u.plain
+	case "hmacverify":
+		rec.Produced, rec.Plain = u.macs[in.Arg], u.plain
 	}
 	rec.Call = u.stamp.Add(1)
 	rec.Out = u.exec(in, rec)
 	rec.Ret = u.stamp.Add(1)
-	u.cache.endOp(tag)
 	u.mu.Lock()
 	u.hist = append(u.hist, rec)
 	u.mu.Unlock()
@@ -1239,7 +1182,7 @@ func (u *c17CRun) check(v *c17CVerdict, r *kit.Result) {
 			continue
 		}
 		switch h.In.Kind {
-		case "decrypt", "verify":
+		case "decrypt", "verify", "hmacverify":
 			if h.In.Arg < lb.MinDec {
 				if o.OK {
 					v.violate("C17-"+h.In.Kind+"-below-acknowledged-min-version", fmt.Sprintf("%v of client %s started at %d and succeeded although %v had raised min_decryption_version to %d before", h.In, h.Tag, h.Call, by["min_dec"], lb.MinDec))
@@ -1247,7 +1190,7 @@ func (u *c17CRun) check(v *c17CVerdict, r *kit.Result) {
 					r.Count(h.In.Kind+"_refused_below_acknowledged_min_dec", 1)
 				}
 			}
-		case "encrypt", "sign":
+		case "encrypt", "sign", "hmac":
 			switch {
 			case !o.OK:
 				if h.In.Arg > 0 && h.In.Arg < lb.MinEnc {
@@ -1307,17 +1250,20 @@ func (u *c17CRun) quiesce(v *c17CVerdict, r *kit.Result) {
 	clientHist := append([]*c17CRec(nil), u.hist...)
 	final, _ := c17CAcked(u.sc.Init, clientHist, end, end)
 	// probes: they start after everything was acknowledged
-	u.do(len(u.sc.Clients), "z", 0, c17CIn{Kind: "read"})
+	zc := len(u.sc.Clients)
+	u.do(zc, "z", 0, c17CIn{Kind: "read"})
 	consume, produce := "decrypt", "encrypt"
 	if u.sc.Signing {
 		consume, produce = "verify", "sign"
 	}
 	for ver := 1; ver <= u.sc.Init.Latest; ver++ {
-		u.do(len(u.sc.Clients), "z", ver, c17CIn{Kind: consume, Arg: ver})
+		u.do(zc, "z", ver, c17CIn{Kind: consume, Arg: ver})
+		u.do(zc, "z", ver, c17CIn{Kind: "hmacverify", Arg: ver})
 	}
-	u.do(len(u.sc.Clients), "z", 10, c17CIn{Kind: produce, Arg: 0})
-	u.do(len(u.sc.Clients), "z", 11, c17CIn{Kind: produce, Arg: 1})
-	stored, err := LoadPolicy(u.ctx, u.raw, "policy/"+c17CKey)
+	u.do(zc, "z", 10, c17CIn{Kind: produce, Arg: 0})
+	u.do(zc, "z", 11, c17CIn{Kind: produce, Arg: 1})
+	u.do(zc, "z", 12, c17CIn{Kind: "hmac", Arg: 0})
+	stored, err := keysutil.LoadPolicy(u.ctx, u.raw, "policy/"+c17CKey)
 	if err != nil {
 		v.violate("C17-policy-unloadable", fmt.Sprintf("stored policy cannot be loaded at quiescence: %v", err))
 		return
@@ -1326,31 +1272,28 @@ func (u *c17CRun) quiesce(v *c17CVerdict, r *kit.Result) {
 	// version is in the window storage holds (storage itself is compared with
 	// the acknowledged operations below)
 	if !final.Deleted && stored != nil {
-		stored0MinDec := stored.MinDecryptionVersion
 		for _, h := range append([]*c17CRec(nil), u.hist...) {
-			if h.Produced == "" || !h.Out.OK || (h.In.Kind != "encrypt" && h.In.Kind != "sign") {
+			if h.Produced == "" || !h.Out.OK {
 				continue
 			}
-			var out c17COut
-			if u.sc.Signing {
-				out = u.verify(h.Produced, h.Plain)
-			} else {
-				out = u.decrypt(h.Produced, h.Plain)
+			how := map[string]string{"encrypt": "decrypt", "sign": "verify", "hmac": "hmacverify"}[h.In.Kind]
+			if how == "" {
+				continue
 			}
-			want := h.Out.Ver >= stored0MinDec && h.Out.Ver <= stored.LatestVersion
+			out := u.consume(u.raw, how, h.Produced, h.Plain)
+			want := h.Out.Ver >= stored.MinDecryptionVersion && h.Out.Ver <= stored.LatestVersion
 			switch {
 			case strings.HasPrefix(out.Err, "WRONG PLAINTEXT"):
 				v.violate("C17-concurrent-wrong-plaintext", fmt.Sprintf("output of %v decrypts to something else at quiescence: %s", h, out.Err))
 			case out.OK != want:
-				v.violate("C17-concurrent-output-not-consumable-at-quiescence", fmt.Sprintf("%s labelled v%d returned by %v: with storage at latest=%d min_decryption_version=%d, %s at quiescence answered %v", produce, h.Out.Ver, h, stored.LatestVersion, stored0MinDec, consume, out))
+				v.violate("C17-concurrent-output-not-consumable-at-quiescence", fmt.Sprintf("%s output labelled v%d returned by %v: with storage at latest=%d min_decryption_version=%d, %s at quiescence answered %v", h.In.Kind, h.Out.Ver, h, stored.LatestVersion, stored.MinDecryptionVersion, how, out))
 			default:
 				r.Count("produced_outputs_checked_at_quiescence", 1)
 			}
 		}
 	}
 	// cache / storage agreement
-	var servedDesc, storedDesc string
-	desc := func(p *Policy) string {
+	desc := func(p *keysutil.Policy) string {
 		if p == nil {
 			return "absent"
 		}
@@ -1361,20 +1304,20 @@ func (u *c17CRun) quiesce(v *c17CVerdict, r *kit.Result) {
 		sort.Strings(vs)
 		return fmt.Sprintf("latest=%d min_dec=%d min_enc=%d min_avail=%d archive_version=%d archive_min_version=%d deletion_allowed=%v keys=%v", p.LatestVersion, p.MinDecryptionVersion, p.MinEncryptionVersion, p.MinAvailableVersion, p.ArchiveVersion, p.ArchiveMinVersion, p.DeletionAllowed, vs)
 	}
-	storedDesc = desc(stored)
-	p, _, gerr := u.lm.GetPolicy(u.ctx, PolicyRequest{Storage: u.raw, Name: c17CKey}, crand.Reader)
+	storedDesc := desc(stored)
+	p, _, gerr := u.b.GetPolicy(u.ctx, keysutil.PolicyRequest{Storage: u.raw, Name: c17CKey}, u.b.GetRandomReader())
 	if gerr != nil {
 		v.violate("C17-policy-unloadable", fmt.Sprintf("GetPolicy at quiescence: %v", gerr))
 		return
 	}
-	servedDesc = desc(p)
+	servedDesc := desc(p)
 	if p != nil {
 		p.Unlock()
 	}
 	v.witness["served_at_quiescence"] = servedDesc
 	v.witness["stored_at_quiescence"] = storedDesc
 	if servedDesc != storedDesc {
-		v.violate("C17-cache-disagrees-with-storage-at-quiescence", fmt.Sprintf("after every request returned the lock manager serves {%s} while storage holds {%s}", servedDesc, storedDesc))
+		v.violate("C17-cache-disagrees-with-storage-at-quiescence", fmt.Sprintf("after every request returned the backend serves {%s} while storage holds {%s}", servedDesc, storedDesc))
 	} else {
 		r.Count("quiescence_cache_storage_agree", 1)
 	}
@@ -1384,10 +1327,8 @@ func (u *c17CRun) quiesce(v *c17CVerdict, r *kit.Result) {
 		if stored != nil {
 			v.violate("C17-acknowledged-update-missing-from-storage", "the delete was acknowledged but storage still holds the policy: "+storedDesc)
 		}
-		for _, k := range []string{"archive/" + c17CKey} {
-			if e, _ := u.raw.Get(u.ctx, k); e != nil {
-				v.violate("C17-acknowledged-update-missing-from-storage", "the delete was acknowledged but storage still holds "+k)
-			}
+		if e, _ := u.raw.Get(u.ctx, "archive/"+c17CKey); e != nil {
+			v.violate("C17-acknowledged-update-missing-from-storage", "the delete was acknowledged but storage still holds archive/"+c17CKey)
 		}
 	case stored == nil:
 		v.violate("C17-acknowledged-update-missing-from-storage", "the policy vanished from storage although no delete was acknowledged")
@@ -1423,7 +1364,7 @@ func (u *c17CRun) quiesce(v *c17CVerdict, r *kit.Result) {
 }
 
 // c17COrderHash identifies an interleaving by the order in which the
-// clients' cache and storage accesses were made.
+// clients' storage operations were made.
 func c17COrderHash(order []string) string {
 	h := sha256.New()
 	for _, o := range order {
@@ -1436,7 +1377,7 @@ func c17COrderHash(order []string) string {
 // c17COne builds the scenario from scratch, runs the clients (under the gate
 // with pol, or free-running when pol is nil) and judges the execution.
 func c17COne(ctx context.Context, r *kit.Result, sc *c17CScen, id string, pol kit.Policy, yield func() bool) (c17SchedOut, bool) {
-	u, err := c17CNewRun(ctx, sc)
+	u, err := c17CNewRun(ctx, r, id, sc)
 	if err != nil {
 		r.Inconc("%s: %v", id, err)
 		return c17SchedOut{}, false
@@ -1491,14 +1432,18 @@ func c17COne(ctx context.Context, r *kit.Result, sc *c17CScen, id string, pol ki
 	if pol != nil && out.Schedule.Overlap() {
 		r.Count("schedules_with_overlapping_clients", 1)
 	}
-	u.cache.mu.Lock()
-	cm, misses := u.cache.concurrentMiss, u.cache.misses
-	u.cache.mu.Unlock()
-	if cm {
-		r.Count("runs_two_clients_missed_cache_concurrently", 1)
+	loaders := map[string]bool{}
+	for _, o := range order {
+		if strings.HasSuffix(o, ":get:policy/"+c17CKey) {
+			loaders[o[:strings.IndexByte(o, ':')]] = true
+		}
 	}
-	if misses > 0 {
-		r.Count("runs_with_cache_miss", 1)
+	if len(loaders) > 0 {
+		r.Count("runs_with_policy_loaded_from_storage", 1)
+		r.Count("runs_with_policy_loaded_from_storage:"+sc.Cache, 1)
+	}
+	if len(loaders) > 1 {
+		r.Count("runs_policy_loaded_from_storage_by_two_clients", 1)
 	}
 	u.quiesce(v, r)
 	histDump()
@@ -1519,19 +1464,19 @@ func c17CTags(sc *c17CScen) []string {
 
 // ---------------------------------------------------------------- tests
 
-const c17CRule = "case = one execution of 2-3 clients running short programs (raise min_decryption_version / min_encryption_version, rotate, trim, allow deletion + delete, encrypt, decrypt of an old-version ciphertext, sign, verify, read, backup) on ONE key through a cache-enabled keysutil.LockManager whose cache accesses and storage operations are scheduling points; cache situations: key never loaded, invalidated, evicted from the LRU, cached (sync.Map and LRU); non-trivial = distinct (scenario, order of cache/storage accesses). Oracle: sequential reference {latest, min_dec, min_enc, min_avail, deletion}: every acknowledged change is visible to every operation started after the acknowledgement, the history is linearizable (porcupine), and at quiescence the served policy equals the stored one and storage holds every acknowledged update"
+const c17CRule = "case = one execution of 2-3 clients sending short request sequences (keys/k/config raising min_decryption_version / min_encryption_version / allowing deletion, keys/k/rotate, keys/k/trim, DELETE keys/k, encrypt, decrypt of an old-version ciphertext, sign, verify, hmac, hmac verification, keys/k read, backup) for ONE key to the transit backend (backend.HandleRequest) whose storage operations and request starts are scheduling points; cache situations: backend freshly started, invalidate(policy/k), evicted from the LRU, cached (unlimited cache and LRU); non-trivial = distinct (scenario, order of storage operations). Oracle: sequential reference {latest, min_dec, min_enc, min_avail, deletion}: every acknowledged change is visible to every operation started after the acknowledgement, the history is linearizable (porcupine), and at quiescence the served policy equals the stored one and storage holds every acknowledged update"
 
 func TestVerif_C17_ConcurrentGated(t *testing.T) {
 	seed := kit.Seed(17)
 	shard, nshards := kit.Shard()
-	r := kit.NewResult(t, "c17-policy-concurrent-gated", seed, c17CRule+"; interleavings: depth-first over all schedules with at most 2 preemptions (capped per scenario), then seeded PCT and uniformly random schedules")
+	r := kit.NewResult(t, "c17-api-concurrent-gated", seed, c17CRule+"; interleavings: depth-first over all schedules with at most 2 preemptions (capped per scenario), then seeded PCT and uniformly random schedules")
 	defer r.Write(t)
 	ctx := context.Background()
 	scens := c17CScenarios(seed)
-	// replay of one case: "lmc:<shard>:<scenario>:x:<choices>" or "lmc:<shard>:<scenario>:r:<n>"
+	// replay of one case: "tbc:<shard>:<scenario>:x:<choices>" or "tbc:<shard>:<scenario>:r:<n>"
 	if oc := kit.OnlyCase(); oc != "" {
 		f := strings.Split(oc, ":")
-		if len(f) != 5 || f[0] != "lmc" {
+		if len(f) != 5 || f[0] != "tbc" {
 			return
 		}
 		si, _ := strconv.Atoi(f[2])
@@ -1562,7 +1507,7 @@ func TestVerif_C17_ConcurrentGated(t *testing.T) {
 		ex := &kit.Explorer{MaxPreempt: 2, MaxRuns: maxRuns}
 		stop := false
 		ex.Explore(func(pol kit.Policy) (kit.Schedule, bool) {
-			id := fmt.Sprintf("lmc:%d:%d:x:%s", shard, sc.Idx, strings.Join(pol.(kit.Script).Choices, ""))
+			id := fmt.Sprintf("tbc:%d:%d:x:%s", shard, sc.Idx, strings.Join(pol.(kit.Script).Choices, ""))
 			out, cont := c17COne(ctx, r, sc, id, pol, nil)
 			if !cont {
 				stop = true
@@ -1577,13 +1522,15 @@ func TestVerif_C17_ConcurrentGated(t *testing.T) {
 			continue
 		}
 		for q := 0; q < kit.N(10, 150); q++ {
-			id := fmt.Sprintf("lmc:%d:%d:r:%d", shard, sc.Idx, q)
+			id := fmt.Sprintf("tbc:%d:%d:r:%d", shard, sc.Idx, q)
 			c17COne(ctx, r, sc, id, c17CRandPol(seed, sc, q), nil)
 		}
 	}
 	r.Require("schedules_explored:gated", 2000)
 	r.Require("distinct_interleavings", 1500)
-	r.Require("runs_two_clients_missed_cache_concurrently", 500)
+	r.Require("runs_with_policy_loaded_from_storage", 1000)
+	r.Require("runs_with_policy_loaded_from_storage:invalidated", 60)
+	r.Require("runs_with_policy_loaded_from_storage:lru-evicted", 60)
 	r.Require("acknowledged_exclusive_ops", 3000)
 	r.Require("ops_started_after_an_acknowledged_change", 3000)
 	r.Require("decrypt_refused_below_acknowledged_min_dec", 300)
@@ -1596,7 +1543,7 @@ func TestVerif_C17_ConcurrentGated(t *testing.T) {
 }
 
 func c17CRandPol(seed int64, sc *c17CScen, q int) kit.Policy {
-	rng := kit.NewRand(seed, 1_717_500_000+uint64(sc.Idx)*1000+uint64(q))
+	rng := kit.NewRand(seed, 1_717_510_000+uint64(sc.Idx)*1000+uint64(q))
 	if q%2 == 0 {
 		return kit.NewPCT(rng, c17CTags(sc), 3, 12*len(sc.Clients))
 	}
@@ -1610,7 +1557,7 @@ func c17CRandPol(seed int64, sc *c17CScen, q int) kit.Policy {
 func TestVerif_C17_ConcurrentFree(t *testing.T) {
 	seed := kit.Seed(17)
 	shard, nshards := kit.Shard()
-	r := kit.NewResult(t, "c17-policy-concurrent-free", seed, c17CRule+"; free-running goroutines behind a start barrier with seeded runtime.Gosched() calls at the cache/storage accesses (the interleaving is whatever the Go scheduler produces)")
+	r := kit.NewResult(t, "c17-api-concurrent-free", seed, c17CRule+"; free-running goroutines behind a start barrier with seeded runtime.Gosched() calls at the storage operations; every second run on the transactional in-memory storage itself (handlers then work in storage transactions) (the interleaving is whatever the Go scheduler produces)")
 	defer r.Write(t)
 	ctx := context.Background()
 	scens := c17CScenarios(seed)
@@ -1623,13 +1570,15 @@ func TestVerif_C17_ConcurrentFree(t *testing.T) {
 			continue
 		}
 		for q := 0; q < iters; q++ {
-			id := fmt.Sprintf("lmf:%d:%d:%d", shard, sc.Idx, q)
+			id := fmt.Sprintf("tbf:%d:%d:%d", shard, sc.Idx, q)
 			if !kit.WantCase(id) {
 				continue
 			}
-			rng := kit.NewRand(seed, 1_717_600_000+uint64(sc.Idx)*100000+uint64(q))
+			rng := kit.NewRand(seed, 1_717_610_000+uint64(sc.Idx)*100000+uint64(q))
 			den := 1 + rng.Intn(4)
-			c17COne(ctx, r, sc, id, nil, func() bool { return rng.Intn(den) == 0 })
+			scq := *sc
+			scq.Tx = q%2 == 1
+			c17COne(ctx, r, &scq, id, nil, func() bool { return rng.Intn(den) == 0 })
 			if r.NViolations() >= 40 {
 				return
 			}
